@@ -183,7 +183,6 @@ func drawBytes(k int) []byte {
 	return nil
 }
 
-
 // ReadBackLogs: with the debug logger installed, a record is written and read back - genuinely, in a warm and in a
 // fresh process, and damaged so that the data key, the payload or the parent lookup fails (the error paths log too).
 // No logger argument may depend on a payload or key byte.
@@ -236,4 +235,41 @@ func ReadBackLogs() {
 		vx.Assert("C03.no_plaintext_in_log_arguments", !vx.DependsOn(a, secrets))
 	}
 	vx.Reach("C03.rb_end")
+}
+
+// ReleaseFaults: an encrypt during which re-protecting a key's memory fails once, after the step that used the key has
+// already run (what the secure-memory layer reports under memory pressure). Whatever the SDK does about the error, no
+// data key seals the payload twice and the payload is sealed under one data key only; a failed encrypt returns no
+// record and the next one works.
+func ReleaseFaults() {
+	e := env.New()
+	pol := e.Policy(env.Policies[1], vx.Choice("cache", vx.Param("caches")))
+	f := e.Factory(pol)
+	vx.Now()
+	vx.ClockFreeze(true)
+	s, _ := f.GetSession("p0")
+	_, err := s.Encrypt(env.Ctx, []byte{9, 9})
+	vx.Assert("C03.rf_warmup_ok", err == nil)
+	payload := vx.Bytes("payload", 2)
+	s0 := vx.SealCount()
+	vx.FaultCap(1)
+	vx.FaultBudget("secretrelease", 1)
+	rec, err := s.Encrypt(env.Ctx, payload)
+	vx.FaultBudget("secretrelease", 0)
+	seals := 0
+	for j := s0; j < vx.SealCount(); j++ {
+		if vx.SameTerms(vx.SealPlain(j), payload) {
+			seals++
+		}
+	}
+	vx.Assert("C03.rf_payload_sealed_at_most_once", seals <= 1)
+	if err != nil {
+		vx.Assert("C03.rf_error_means_no_record", rec == nil)
+		vx.Reach("C03.rf_encrypt_failed")
+	} else {
+		vx.Assert("C03.rf_payload_sealed_exactly_once", seals == 1)
+	}
+	rec2, err := s.Encrypt(env.Ctx, payload)
+	vx.Assert("C03.rf_next_encrypt_ok", err == nil && rec2 != nil)
+	vx.Reach("C03.rf_end")
 }
